@@ -19,6 +19,8 @@ import time
 import traceback
 
 sys.dont_write_bytecode = True
+import faulthandler, signal
+faulthandler.register(signal.SIGUSR1, all_threads=True)
 HERE = os.path.dirname(os.path.abspath(__file__))
 sys.path.insert(0, HERE)
 
